@@ -161,3 +161,17 @@ Proof.
       { rewrite index_of_app, Ei. cbn [index_of]. rewrite beqb_refl. f_equal; lia. }
       rewrite E1, (firsts_extends ts _ _ _ Hk). reflexivity.
 Qed.
+
+(* ---- the real-number reading of "shown iff value/reference >= threshold" fails within one ulp ----
+   value 11, reference 10: the binary64 quotient 11/10 rounds UP, to
+   4953959590107546 * 2^-52.  With exactly that float as the threshold the row is
+   shown although 11/10 < threshold.  (Known finding threshold-within-one-ulp-of-ratio.) *)
+Lemma real_ratio_refuted :
+  exists (i : item) (t : thr),
+    it_overflow i = false /\ 0 < th_den t /\
+    level_of_concern i t <> None /\                       (* the row is shown *)
+    it_value i * th_den t * fden (it_scale i) < th_num t * fnum (it_scale i).   (* value/reference < threshold, exactly *)
+Proof.
+  exists (mk_item [] [] 11 false Metric [] (f64_of_Z 10) []), (mk_thr 4953959590107546 4503599627370496).
+  vm_compute. repeat split; try reflexivity; discriminate.
+Qed.
